@@ -1027,6 +1027,75 @@ theorem group_is_range_aux (size bs F : Nat) (g : Geo size bs F) :
 
 end allgroups
 
+/-! ## every existing node of level `≥ bs` is in the persisted list -/
+
+section persisted
+
+theorem mem_preNodes_anc (n minL M k : Nat) (hM : minL ≤ M) (hm : midOf k M < n) :
+    ∀ j, nodeOf k M ∈ preNodes n minL (M + j) (k / 2 ^ j) := by
+  intro j
+  induction j with
+  | zero =>
+    simp only [Nat.add_zero, Nat.pow_zero, Nat.div_one]
+    cases M with
+    | zero =>
+      have : minL = 0 := by omega
+      simp [preNodes, hm, this]
+    | succ M =>
+      simp only [preNodes, if_pos hm, ge_iff_le, if_pos hM]
+      simp
+  | succ j ih =>
+    have hp : k / 2 ^ j / 2 = k / 2 ^ (j + 1) := by
+      rw [Nat.div_div_eq_div_mul, ← Nat.pow_succ]
+    rw [show M + (j + 1) = M + j + 1 by omega]
+    simp only [preNodes]
+    rcases Nat.mod_two_eq_zero_or_one (k / 2 ^ j) with h0 | h1
+    · have hc : 2 * (k / 2 ^ (j + 1)) = k / 2 ^ j := by omega
+      split
+      · rw [hc]
+        exact List.mem_append_left _ (List.mem_append_right _ ih)
+      · rw [hc]; exact ih
+    · have hc : 2 * (k / 2 ^ (j + 1)) + 1 = k / 2 ^ j := by omega
+      have hmid : midOf (k / 2 ^ (j + 1)) (M + j + 1) < n := by
+        rw [← Bits.startOf_right, hc]
+        have h1 : k / 2 ^ j * 2 ^ j ≤ k := Nat.div_mul_le_self k (2 ^ j)
+        have h2 : startOf (k / 2 ^ j) (M + j) = k / 2 ^ j * 2 ^ j * 2 ^ (M + 1) := by
+          unfold startOf
+          rw [show M + j + 1 = j + (M + 1) by omega, Nat.pow_add, Nat.mul_assoc]
+        have h3 : startOf k M = k * 2 ^ (M + 1) := rfl
+        have h4 := startOf_lt_midOf k M
+        have h5 : k / 2 ^ j * 2 ^ j * 2 ^ (M + 1) ≤ k * 2 ^ (M + 1) := Nat.mul_le_mul_right _ h1
+        omega
+      rw [if_pos hmid, hc]
+      exact List.mem_append_right _ ih
+
+/-- every existing node `(k, M)` of level `M ≥ bs` is persisted -/
+theorem mem_persistedPre (size bs k M : Nat) (hs : size ≤ 2 ^ 63) (hM : bs ≤ M)
+    (hm : midOf k M < nChunks size) : nodeOf k M ∈ persistedPre size bs := by
+  unfold persistedPre
+  have hn := Offsets.log2ceil_spec 64 (nChunks size) (Offsets.nChunks_le size hs)
+  generalize log2ceil 64 (nChunks size) = Hh at *
+  have e1 : midOf k M = startOf k M + 2 ^ M := rfl
+  have e3 : startOf k M = k * 2 ^ (M + 1) := rfl
+  have hlt : 2 ^ M < 2 ^ Hh := by omega
+  have hMH : M < Hh := (Nat.pow_lt_pow_iff_right (a := 2) (by decide)).1 hlt
+  obtain ⟨j, rfl⟩ : ∃ j, Hh = M + j := ⟨Hh - M, by omega⟩
+  have hk : k / 2 ^ j = 0 := by
+    apply Nat.div_eq_of_lt
+    have hpM := two_pow_pos' M
+    have h1 : k * 2 ^ (M + 1) < 2 ^ (M + j) := by omega
+    have h2 : (2 : Nat) ^ (M + j) = 2 ^ j * 2 ^ M := by rw [Nat.add_comm, Nat.pow_add]
+    have h3 : (2 : Nat) ^ (M + 1) = 2 * 2 ^ M := Nat.pow_succ'
+    rw [h2, h3] at h1
+    have h4 : k * 2 ^ M < 2 ^ j * 2 ^ M := by
+      have : k * 2 ^ M ≤ k * (2 * 2 ^ M) := Nat.mul_le_mul_left _ (by omega)
+      omega
+    exact (Nat.mul_lt_mul_right hpM).1 h4
+  have := mem_preNodes_anc (nChunks size) bs M k hM hm j
+  rwa [hk] at this
+
+end persisted
+
 /-! ## `validate_rec` reports exactly the linked groups the query reaches -/
 
 section rec
@@ -1367,6 +1436,64 @@ theorem root_facts (t : Tree) (hs : t.size ≤ 2 ^ 63) :
   obtain ⟨h1, h2, h3⟩ := rootLevel_spec size bs hs
   refine ⟨by rw [h2]; exact h3, h1, ?_⟩
   rw [h2, indexOf_nodeOf (by omega)]
+
+/-- the validators on a tree with more than one chunk group: `validate_rec` at the shifted root -/
+omit [LawfulBEq H] in
+theorem validRanges_many (hb : ob.tree.blocks ≠ 1) (q : Ranges) :
+    validRanges hf fl ob data q =
+      validateRec hf fl true ob data ob.tree.shifted.2 65 ob.root ob.tree.shifted.1 true
+        (Ranges.truncate q ob.tree.size) := by
+  unfold validRanges
+  have : (ob.tree.blocks == 1) = false := by simpa using hb
+  simp only [this, Bool.false_eq_true, if_false]
+
+omit [LawfulBEq H] in
+theorem validOutboardRanges_many (hb : ob.tree.blocks ≠ 1) (q : Ranges) :
+    validOutboardRanges hf fl ob q =
+      validateRec hf fl false ob [] ob.tree.shifted.2 65 ob.root ob.tree.shifted.1 true
+        (Ranges.truncate q ob.tree.size) := by
+  unfold validOutboardRanges
+  have : (ob.tree.blocks == 1) = false := by simpa using hb
+  simp only [this, Bool.false_eq_true, if_false]
+
+/-- the data validator on a tree with a single chunk group: one hash check, the query is ignored -/
+theorem validRanges_one (hb : ob.tree.blocks = 1) (q : Ranges) :
+    RunSpec (validRanges hf fl ob data q)
+      (fun g => g = (0, ob.tree.chunks) ∧
+        hashSubtree hf 0 (data.take ob.tree.size) true = ob.root) 0 (ob.tree.chunks + 1) ∧
+    (ob.tree.size ≤ data.length → (validRanges hf fl ob data q).terminal = .ok) := by
+  unfold validRanges
+  have : (ob.tree.blocks == 1) = true := by simpa using hb
+  simp only [this, if_true]
+  cases hr : readExactAt data 0 ob.tree.size with
+  | error e =>
+    refine ⟨RunSpec.fail (by simp), fun hlen => ?_⟩
+    have := readExactAt_of_le (s := 0) hlen
+    rw [Nat.sub_zero, hr] at this
+    cases this
+  | ok tmp =>
+    have ht : tmp = data.take ob.tree.size := by
+      have := readExactAt_ok (s := 0) (e := ob.tree.size) hr
+      rw [this]; simp [bytesAt]
+    subst ht
+    simp only
+    by_cases heq : hashSubtree hf 0 (data.take ob.tree.size) true = ob.root
+    · have hb' : (hashSubtree hf 0 (data.take ob.tree.size) true == ob.root) = true := by
+        simp [heq]
+      rw [if_pos hb']
+      exact ⟨RunSpec.single _ ⟨rfl, heq⟩ (fun g hg => hg.1) ⟨Nat.le_refl _, by simp, by simp⟩,
+        fun _ => rfl⟩
+    · have hb' : ¬ (hashSubtree hf 0 (data.take ob.tree.size) true == ob.root) = true := by
+        simpa using heq
+      rw [if_neg hb']
+      exact ⟨RunSpec.stop _ (fun g hg => heq hg.2), fun _ => rfl⟩
+
+omit [LawfulBEq H] in
+theorem validOutboardRanges_one (hb : ob.tree.blocks = 1) (q : Ranges) :
+    validOutboardRanges hf fl ob q = ⟨[(0, ob.tree.chunks)], .ok⟩ := by
+  unfold validOutboardRanges
+  have : (ob.tree.blocks == 1) = true := by simpa using hb
+  simp only [this, if_true]
 
 end top
 
